@@ -681,6 +681,24 @@ def extract_stacks(mgrs, facts):
       if isinstance(n, ast.Call) and isinstance(n.func, ast.Attribute) and n.func.attr in ('pop', 'clear', 'popitem') \
           and '_original_new' in ast.unparse(n.func.value):
         unpatch.append('%s:%d %s' % (f2.name, n.lineno, ast.unparse(n)))
+  # _maybe_detoured_new, destination FUNCTION branch: the temporary `mappings[cls] = cls` entry must
+  # be replaced by the real destination in a `finally` (the function may raise).
+  mdn = common.find_func(tree, '_maybe_detoured_new')
+
+  def sub_assign(n, want_cls):
+    return (isinstance(n, ast.Assign) and len(n.targets) == 1 and isinstance(n.targets[0], ast.Subscript)
+            and isinstance(n.targets[0].slice, ast.Name) and n.targets[0].slice.id == 'cls'
+            and isinstance(n.value, ast.Name) and (n.value.id == 'cls') == want_cls)
+  temps = [n for n in ast.walk(mdn) if sub_assign(n, True)]
+  if len(temps) != 1:
+    raise TranslatorError(F_DETOUR + ': _maybe_detoured_new: the temporary `mappings[cls] = cls` write was not found')
+  in_finally = False
+  for t in ast.walk(mdn):
+    if isinstance(t, ast.Try) and any(sub_assign(x, False) for f in t.finalbody for x in ast.walk(f)) \
+        and any(x is temps[0] for b in t.body for x in ast.walk(b)) \
+        and any(isinstance(x, ast.Return) for b in t.body for x in ast.walk(b)):
+      in_finally = True
+  facts['detourCallRestoresInFinally'] = in_finally
   facts['detourNeverUnpatches'] = not unpatch
   facts['detourUnpatchSites'] = unpatch
   if not unpatch:
@@ -874,6 +892,10 @@ def run():
   L.append('/-- No function of class_detour.py other than `enter_scope` writes a class\'s `__new__` or drops an')
   L.append('`_original_new` entry (the patch is process-wide, the mapping per thread). -/')
   L.append('def detourNeverUnpatches : Bool := %s' % common.lean_bool(facts['detourNeverUnpatches']))
+  L.append('')
+  L.append('/-- `_maybe_detoured_new`: the temporary `cls -> cls` entry written before calling a destination')
+  L.append('function is replaced by the destination in a `finally`. -/')
+  L.append('def detourCallRestoresInFinally : Bool := %s' % common.lean_bool(facts['detourCallRestoresInFinally']))
   L.append('')
   L.append('end Pg.C17')
   L.append('')
